@@ -486,7 +486,9 @@ Lemma anchored_covers_lemma :
   ["HP_read"; "HP_write"; "HPseek"; "hi_close_stdio"; "HIextend_file"; "HIsync"; "HTPsync"; "HTPend";
    "HIrelease_filerec_node"; "HIupdate_version"; "Hclose"; "Hsync"; "HPread_drec"; "Vdetach"; "VSdetach";
    "HMCPcloseAID"; "HMCPendaccess"; "mcache_sync"; "ncclose"; "NC_free_cdf"; "hdf_close"; "hdf_xdr_cdf"; "xdr_cdf";
-   "SDend"; "SDendaccess"; "HPgetdiskblock"; "HTIupdate_dd"; "HTInew_dd_block"].
+   "SDend"; "SDendaccess"; "HPgetdiskblock"; "HTIupdate_dd"; "HTInew_dd_block"; "Hopen"; "SDgetchunkinfo";
+   "SDIfreevarAID"; "SDsetchunkcache"; "SDgetcompinfo"; "SDgetdatasize"; "SDcheckempty"; "SDsetaccesstype";
+   "SDwritedata"; "SDreaddata"; "SDwritechunk"; "SDreadchunk"].
 Proof. reflexivity. Qed.
 
 (** a table without dropped sites gives, for ANY control flow over those sites, a visible program: the link between
@@ -674,3 +676,17 @@ Definition conv_ok (r : string * string * string * string) : bool :=
 
 Lemma conventions_consistent_lemma : forallb conv_ok conventions = true /\ (40 <= List.length conventions)%nat.
 Proof. split; [vm_compute; reflexivity|vm_compute; repeat constructor]. Qed.
+
+(* ------------------------------------------------------------------------------------------------------------ *)
+(** * Round 4: state shared between file ids -- Hopen's reopen branch never leaves the file record without a stream *)
+Lemma hopen_reopen_keeps_stream_lemma : forall st o r l st' o' tr,
+  file_open st = true -> exec frec Hopen_reopen_prog st o = (r, l, st', o', tr) -> file_open st' = true.
+Proof.
+  intros st o r l st' o' tr Hf H.
+  eapply (exec_pres frec (fun s => file_open s = true) Hopen_reopen_prog); eauto.
+  unfold Hopen_reopen_prog, HIsync_prog, HTPsync_prog, HIextend_file_prog, HPseek_prog, HP_write_prog, id_st,
+    clear_cur_dirty. simpl.
+  repeat split; intros s Hs; try exact Hs; try reflexivity; destruct s; simpl in *; exact Hs.
+Qed.
+Lemma hopen_reopen_visible_lemma : visible_prog frec Hopen_reopen_prog.
+Proof. apply no_dropped_visible. reflexivity. Qed.
